@@ -35,21 +35,52 @@ theorem getPath_append : ∀ (ks q : List Str) (v : PyVal),
 
 /-! ## Rpms.add -/
 
+theorem pyIntDigits_error_class (t : Str) (e : Err) (h : pyIntDigits t = .error e) : e = .valueError := by
+  unfold pyIntDigits at h
+  repeat' split at h
+  all_goals first | (cases h; rfl) | cases h
+
+/-- obligation on the generated group table: `groupdict()` has the key `epoch` -/
+theorem nvra_has_epoch_group : (Gen.re_common_RPM_NVRA_RE_groups.lookup "epoch").isNone = false := by decide
+
+theorem parseNvra_error_class (n : Str) (e : Err) (h : parseNvra n = .error e) : e = .valueError := by
+  unfold parseNvra at h
+  split at h
+  · cases h; rfl
+  · rename_i caps _
+    unfold nvraOfCaps at h
+    simp only [nvra_has_epoch_group, Bool.false_eq_true, ↓reduceIte] at h
+    split at h
+    · simp [Except.map] at h
+    · simp [Except.map] at h
+    · rename_i d _ _
+      cases hd : pyIntDigits d with
+      | error e' =>
+        rw [hd] at h
+        simp only [Except.map] at h
+        cases h
+        exact pyIntDigits_error_class d e hd
+      | ok v => rw [hd] at h; simp [Except.map] at h
+
 theorem checkNevra_error_class (n : Str) (e : Err) (h : checkNevra n = .error e) : e = .valueError := by
   unfold checkNevra at h
   split at h
   · cases h; rfl
   · split at h
     · cases h; rfl
+    · rename_i e' hne hp
+      cases h
+      exact parseNvra_error_class n e hp
     · cases h
 
 theorem checkNevra_ok (n c : Str) (d : Nvra) (h : checkNevra n = .ok (c, d)) :
-    ':' ∈ n ∧ parseNvra n = .ok d ∧ c = d.canonical := by
+    ':' ∈ n ∧ parseNvra n = .ok d ∧ c = canonNvra d := by
   unfold checkNevra at h
   split at h
   · cases h
   · rename_i hc
     split at h
+    · cases h
     · cases h
     · rename_i d' hp
       cases h
@@ -97,12 +128,12 @@ structure RpmsAccepted (a : RpmsArgs) (p : RpmsPlan) : Prop where
   category_known : a.category ∈ Gen.SUPPORTED_CATEGORIES
   path_relative : Str.startsWith a.path ['/'] = false
   has_colon : ':' ∈ a.nevra
-  parsed : ∃ d, parseNvra a.nevra = .ok d ∧ p.key = d.canonical
-            ∧ ((a.category = lit "source") ↔ d.arch ∈ nevraSrcArches)
+  parsed : ∃ d, parseNvra a.nevra = .ok d ∧ p.key = canonNvra d
+            ∧ ((a.category = lit "source") ↔ archIn nevraSrcArches d.arch = true)
   source_no_srpm : a.category = lit "source" → a.srpm = none ∧ p.srpmKey = p.key
   binary_srpm : a.category ≠ lit "source" →
       ∃ s, a.srpm = some s ∧ ((s = [] ∧ p.srpmKey = p.key) ∨
-                               (s ≠ [] ∧ ':' ∈ s ∧ ∃ d, parseNvra s = .ok d ∧ p.srpmKey = d.canonical))
+                               (s ≠ [] ∧ ':' ∈ s ∧ ∃ d, parseNvra s = .ok d ∧ p.srpmKey = canonNvra d))
   record : p.record = rpmRecord (a.sigkey.map Str.lowerAscii) a.path a.category
 
 theorem C12_rpms_plan (a : RpmsArgs) (p : RpmsPlan) (h : rpmsCheck a = .ok p) : RpmsAccepted a p := by
@@ -130,7 +161,7 @@ theorem C12_rpms_plan (a : RpmsArgs) (p : RpmsPlan) (h : rpmsCheck a = .ok p) : 
   cases h
   have h5' : ¬ (a.category = lit "source" ∧ a.srpm.isSome = true) := by simpa using h5
   have h6' : ¬ (a.category ≠ lit "source" ∧ a.srpm.isNone = true) := by simpa using h6
-  have h7' : (a.category == lit "source") = nevraSrcArches.contains d.arch := by simpa using h7
+  have h7' : (a.category == lit "source") = archIn nevraSrcArches d.arch := by simpa using h7
   refine ⟨by simpa using h1, by simpa using h2, by simpa using h3, by simpa using h4, hcolon, ⟨d, hparse, hcanon, ?_⟩, ?_, ?_, rfl⟩
   · constructor
     · intro hc
@@ -138,8 +169,7 @@ theorem C12_rpms_plan (a : RpmsArgs) (p : RpmsPlan) (h : rpmsCheck a = .ok p) : 
       rw [this] at h7'
       simpa using h7'.symm
     · intro hc
-      have : nevraSrcArches.contains d.arch = true := by simpa using hc
-      rw [this] at h7'
+      rw [hc] at h7'
       simpa using h7'
   · intro hc
     have hnone : a.srpm = none := by
@@ -178,7 +208,7 @@ category disagreeing with the RPM's own arch -/
 theorem C12_rpms_refuses (s : PyVal) (a : RpmsArgs)
     (h : a.arch ∉ Gen.RPM_ARCHES ∨ a.arch ∈ srcArches ∨ a.category ∉ Gen.SUPPORTED_CATEGORIES
        ∨ Str.startsWith a.path ['/'] = true ∨ ':' ∉ a.nevra ∨ (∃ e, parseNvra a.nevra = .error e)
-       ∨ (∃ d, parseNvra a.nevra = .ok d ∧ ¬ ((a.category = lit "source") ↔ d.arch ∈ nevraSrcArches))) :
+       ∨ (∃ d, parseNvra a.nevra = .ok d ∧ ¬ ((a.category = lit "source") ↔ archIn nevraSrcArches d.arch = true))) :
     Rpms.add s a = (s, .error .valueError) := by
   unfold Rpms.add
   cases hc : rpmsCheck a with
